@@ -1,9 +1,12 @@
 import ParsleyVerif.Props.C07
 #print axioms PV.Slice.c07_frame
 #print axioms PV.Slice.c07_returned
+#print axioms PV.Slice.c07_returned_complete
 #print axioms PV.Slice.c07_memo_stable
 #print axioms PV.Slice.c07_trim_partial
 #print axioms PV.Slice.c07_trim_local
 #print axioms PV.Slice.c07_cells_flat
+#print axioms PV.Slice.c07_lists_wellformed
 #print axioms PV.Slice.c07_pinned_corrupts
 #print axioms PV.Slice.c07_trim_shared_mutates
+#print axioms PV.Slice.c07_source_facts
